@@ -84,18 +84,21 @@ Definition csqrt (R : Z) : Z := let s := Z.sqrt R in if s * s =? R then s else s
 Definition rn_from (f t : Q) : Z := Qnum f * Zpos (Qden t).
 Definition rn_to (f t : Q) : Z := Qnum t * Zpos (Qden f).
 Definition rn_den (f t : Q) : Z := Zpos (Qden f * Qden t).
-Definition line_scale (f t : Q) (D : Z) : Z := 2 * D * rn_den f t * ns_per_s.
-Definition line_radicand (f t : Q) (D k : Z) : Z :=
-  let fn := rn_from f t in
-  fn * fn * D * D + (rn_to f t - fn) * (k * line_scale f t D).
-
-Definition line_at (f t : Q) (D k : Z) : option Z :=
-  let fn := rn_from f t in
-  let tn := rn_to f t in
-  let R := line_radicand f t D k in
+(* the formula over integers: rates fn/M -> tn/M, duration D ns, operation k *)
+Definition line_scale_z (M D : Z) : Z := 2 * D * M * ns_per_s.
+Definition line_radicand_z (fn tn M D k : Z) : Z :=
+  fn * fn * D * D + (tn - fn) * (k * line_scale_z M D).
+Definition line_at_z (fn tn M D k : Z) : option Z :=
+  let R := line_radicand_z fn tn M D k in
   if R <? 0 then None
   else if fn <? tn then Some ((Z.sqrt R - fn * D) / (tn - fn))
   else Some ((fn * D - csqrt R) / (fn - tn)).
+
+Definition line_scale (f t : Q) (D : Z) : Z := line_scale_z (rn_den f t) D.
+Definition line_radicand (f t : Q) (D k : Z) : Z :=
+  line_radicand_z (rn_from f t) (rn_to f t) (rn_den f t) D k.
+Definition line_at (f t : Q) (D k : Z) : option Z :=
+  line_at_z (rn_from f t) (rn_to f t) (rn_den f t) D k.
 
 (* do_at.go: a schedule is (duration, n, doAt) *)
 Record leaf := { l_n : Z; l_dur : Z; l_at : Z -> option Z }.
